@@ -3,6 +3,7 @@ import QProofs.C08
 import QProofs.Bridge
 import Mathlib.LinearAlgebra.Matrix.NonsingularInverse
 import Mathlib.LinearAlgebra.Matrix.DotProduct
+import Mathlib.LinearAlgebra.Matrix.Rank
 import Mathlib.Algebra.Order.BigOperators.Group.Finset
 import Mathlib.Algebra.Order.Field.Basic
 import Mathlib.Tactic.Ring
@@ -255,4 +256,59 @@ theorem forward_toList [Add K] [Mul K] [Zero K] (cs : List (Coeff K)) (A : Mat K
     ((A.mulVec v).add b).toList = predictRaw cs v.toList := by
   rw [add_toList, mulVec_toList, hA, hb, predictRaw_eq]
 
+end QM.C09
+
+/-! ## rank of the forward model and solvability of the inverse contract -/
+open Matrix
+namespace QM.C09
+variable {K : Type} {m n : Nat}
+
+theorem m_contract_rank [Field K] {G : Matrix (Fin n) (Fin n) K} {A : Matrix (Fin m) (Fin n) K}
+    (h : G * (Aᵀ * A) = 1) : A.rank = n ∧ n ≤ m := by
+  have h1 : (1 : Matrix (Fin n) (Fin n) K).rank = n := by simp [Matrix.rank_one]
+  have h2 : (G * (Aᵀ * A)).rank ≤ (Aᵀ * A).rank := Matrix.rank_mul_le_right _ _
+  have h3 : (Aᵀ * A).rank ≤ A.rank := Matrix.rank_mul_le_right _ _
+  have h4 : A.rank ≤ n := Matrix.rank_le_width A
+  have h5 : A.rank ≤ m := Matrix.rank_le_height A
+  rw [h, h1] at h2
+  omega
+
+theorem m_injective_of_rank [Field K] (A : Matrix (Fin m) (Fin n) K) (h : A.rank = n)
+    (d : Fin n → K) (hd : A *ᵥ d = 0) : d = 0 := by
+  have hrn := LinearMap.finrank_range_add_finrank_ker A.mulVecLin
+  have hr : Module.finrank K (LinearMap.range A.mulVecLin) = n := h
+  simp only [Module.finrank_fintype_fun_eq_card, Fintype.card_fin] at hrn
+  have hk : Module.finrank K (LinearMap.ker A.mulVecLin) = 0 := by omega
+  have hb : LinearMap.ker A.mulVecLin = ⊥ := Submodule.finrank_eq_zero.1 hk
+  have : d ∈ LinearMap.ker A.mulVecLin := by simpa using hd
+  rw [hb] at this
+  simpa using this
+
+theorem m_contract_exists [Field K] [LinearOrder K] [IsStrictOrderedRing K] (A : Matrix (Fin m) (Fin n) K)
+    (hinj : ∀ d, A *ᵥ d = 0 → d = 0) : ∃ G : Matrix (Fin n) (Fin n) K, G * (Aᵀ * A) = 1 := by
+  have hM : Function.Injective (Aᵀ * A).mulVec := by
+    intro x y hxy
+    have h0 : (Aᵀ * A) *ᵥ (x - y) = 0 := by rw [Matrix.mulVec_sub, hxy, sub_self]
+    have h1 : (A *ᵥ (x - y)) ⬝ᵥ (A *ᵥ (x - y)) = 0 := by
+      have := congrArg (fun z => (x - y) ⬝ᵥ z) h0
+      simp only [dotProduct_zero] at this
+      rw [← Matrix.mulVec_mulVec, Matrix.dotProduct_mulVec, Matrix.vecMul_transpose] at this
+      exact this
+    have h2 := hinj _ (dotProduct_self_eq_zero.1 h1)
+    exact sub_eq_zero.1 h2
+  have hu : IsUnit (Aᵀ * A) := Matrix.mulVec_injective_iff_isUnit.1 hM
+  obtain ⟨u, hu⟩ := hu
+  exact ⟨(↑u⁻¹ : Matrix (Fin n) (Fin n) K), by rw [← hu]; exact Units.inv_mul u⟩
+
+end QM.C09
+
+namespace QM.C09
+open Matrix
+/-- a Mathlib left inverse of `AᵀA` as an executable matrix satisfying the contract -/
+theorem contract_of_matrix {K : Type} [Field K] {m n : Nat} (A : Mat K m n) (Gm : Matrix (Fin n) (Fin n) K)
+    (h : Gm * (A.toMᵀ * A.toM) = 1) : Contract (Mat.ofFn fun i j => Gm i j) A := by
+  unfold Contract
+  apply Mat.toM_injective
+  simp only [Mat.toM_mul, Mat.toM_transpose, Mat.toM_ofFn, Mat.toM_one]
+  exact h
 end QM.C09
